@@ -12,7 +12,14 @@ PROP = dict(
                "kept; the summary's missing list is exact (C20 tally theorem). Tied by history replay of real cancel-jobs / "
                "try-submit-jobs / show-status executions.",
     level_note="Genuine defect found and repaired first (fix: commit 363ea10, known_findings.json): before it no gate existed. "
-               "Assumes scancel succeeds for listed ids. Trusted: Lean kernel (+3 axioms), vcluster harness and translation.",
-    assumptions=["scancel of a listed id ends that batch", "no resubmission inside the quantified histories (C13)"],
+               "The model assumes scancel succeeds for listed ids. The simulation does not: scancel of an id that has ended "
+               "returns 1 ('Invalid job id specified'), a scancel may fail transiently for a live batch (the user then runs "
+               "cancel-jobs again; such histories are judged by the direct oracles only, the model replay is skipped), and a "
+               "submitter round may hang in squeue/sbatch for minutes of virtual time while cancel-jobs retries its promotion "
+               "60 times, gives up, and is run again later. Direct oracles: no sbatch after the flag is on disk; every batch "
+               "queued or running at the mark was sent a scancel by then (by the marking process: all recorded ids); no second "
+               "live role holder. Trusted: Lean kernel (+3 axioms), vcluster harness and translation.",
+    assumptions=["scancel of a listed id ends that batch (model; the oracles also cover failing scancel calls)",
+                 "no resubmission inside the quantified histories (C13)"],
     explanation="Proofs/SystemGate.lean (GateInv), Proofs/SystemCap.lean, Proofs/SystemRows.lean.",
 )
